@@ -201,13 +201,11 @@ func orderName(o int) string {
 }
 
 const concurrent = 64
-const baseCopies = 16
+const baseCopies = 4 // copies of the enumerated row per delay order => 28 scripted + 36 PRNG requests per case
 
 func run(c *harness.Case) {
-	combo := c.Index % (nTriples * nOrders)
-	baseTriple := combo % nTriples
-	baseOrder := combo / nTriples
-	c.NonTrivial(baseTriple, baseOrder)
+	baseTriple := c.Index % nTriples
+	c.NonTrivial(baseTriple, c.Index/nTriples)
 
 	ta := authorizer.NewTierAuthorizer(fakeAuthorizer{}) // ONE authorizer shared by all requests, as in the apiserver
 
@@ -221,8 +219,8 @@ func run(c *harness.Case) {
 	}
 	reqs := make([]*req, concurrent)
 	for j := range reqs {
-		tr, or := baseTriple, baseOrder
-		if j >= baseCopies {
+		tr, or := baseTriple, j%nOrders
+		if j >= baseCopies*nOrders {
 			tr, or = c.R.Intn(nTriples), c.R.Intn(nOrders)
 		}
 		p, ctx, pn := buildRequest(c, j, tr, or)
@@ -295,9 +293,10 @@ func main() {
 		ID:         "C34",
 		Level:      "exploration",
 		Exhaustive: true,
-		Rule: "case i enumerates (decision row, delay order) = i mod 216*7: the 6^3 rows of {allow,deny,no-opinion}x{nil,error} for the three checks x {6 enforced completion orders of the three checks, no delay}; " +
-			"each case fires 64 concurrent AuthorizeTierOperation calls on ONE shared TierAuthorizer: 16 copies of the enumerated row and 48 PRNG rows/orders, " +
-			"over 4 resource kinds, 8 verbs, namespaced/global, tier-prefixed and bare policy names; every case is non-trivial (three concurrent checks), distinct by (row, order); " +
+		Rule: "case i enumerates decision row i mod 216 of the 6^3 rows of {allow,deny,no-opinion}x{nil,error} for the three checks; " +
+			"each case fires 64 concurrent AuthorizeTierOperation calls on ONE shared TierAuthorizer: 4 copies of the enumerated row under each of the 7 delay regimes " +
+			"(6 enforced completion orders of the three checks, no delay) and 36 PRNG rows/regimes, " +
+			"over 4 resource kinds, 8 verbs, namespaced/global, tier-prefixed and bare policy names; every case is non-trivial (three concurrent checks), distinct by (row, repetition); " +
 			"built with -race, every DATA RACE block is a violation",
 		Assumptions: []string{
 			"the fake Authorizer answers from a per-request script found through the request context; delays are time.Sleep perturbations that no oracle reads",
@@ -306,11 +305,11 @@ func main() {
 		},
 		Cases: func(tier string) int {
 			if tier == "thorough" {
-				return nTriples * nOrders * 50
+				return nTriples * 100
 			}
-			return nTriples * nOrders
+			return nTriples * 2
 		},
 		Run:    run,
-		Floors: map[string]int64{"requests": 9000, "authz_calls": 27000, "expected_allowed": 500, "expected_forbidden": 5000, "requests_with_authorizer_error": 5000},
+		Floors: map[string]int64{"requests": 2700, "authz_calls": 8000, "expected_allowed": 400, "expected_forbidden": 2000, "requests_with_authorizer_error": 2000},
 	})
 }
